@@ -135,7 +135,7 @@ def r2(ctx):
     helpers = {f for f in k2.private_closure(P, ab) if f != ab and "{closure" not in f and {c for c, _ in callers.get(f, [])} <= {ab}}
     # the ABI decoder (its table is C16.R3) and private helpers only it calls
     dec = "chess_api::EvaluatedMove::score"
-    dec_helpers = {f for f in k2.private_closure(P, dec) if f != dec and "{closure" not in f and {c for c, _ in callers.get(f, [])} <= {dec}}
+    dec_helpers = {f for f in k2.private_closure(P, dec) if f != dec and "{closure" not in f and {c for c, _ in callers.get(f, [])} <= {dec}} if dec in P.fns else set()   # chess_api is absent from single-package configurations
     allowed = {ab, dec} | helpers | dec_helpers
     bad = {}
     for k, sites in cons.items():
